@@ -173,6 +173,36 @@ func simGen(r *rand.Rand, tier string, n int) []*wire.Case {
 		mk("d-revive", s)
 	}
 	{
+		s := base() // an extra action queued for a unit that is held at zero and whose revive comes later than the action: taken, not performed
+		s.start = 5
+		s.progs = append(s.progs, "Mu1.7+Mu2.7")
+		s.progs[4] = "Au1.1.1.9000+Tu1+I.0.115.0"
+		s.cycles = 4
+		mk("d-limbo-extra-action", s)
+		t := base() // ... the same with the ordinary (early) revive, and with both kinds asked for on one unit
+		t.start = 5
+		t.progs = append(t.progs, "Mu1.0+Mu1.7+Mu2.7+Mu2.0")
+		t.progs[4] = "Ao.1.1.9000+Tu1+Tu2"
+		t.cycles = 4
+		mk("d-limbo-extra-action-both", t)
+	}
+	{
+		s := base() // both sides wiped out in the same death check (a killing blow paid for with the last HP): one decision, one termination
+		s.ckind, s.cspd, s.cenergy, s.cattack, s.cskill, s.cult = []int{0}, []float64{0}, []float64{0}, []int{0}, []int{1}, []int{3}
+		s.ehp, s.espd, s.eaction = []float64{500}, []float64{90}, []int{4}
+		s.progs[0] = "Ap.1.1.9000+C.100.0"
+		mk("d-mutual-wipe", s)
+	}
+	{
+		s := base() // ... whole teams on both sides, from an enemy's turn, and from inside an insert
+		s.progs[4] = "Ao.1.1.9000+Cf.100.0"
+		mk("d-mutual-wipe-teams", s)
+		t := base()
+		t.progs = append(t.progs, "Ao.3.1.9000+Cf.100.0+E")
+		t.progs[0] = "Ap.1.1.10+I.5.115.0"
+		mk("d-mutual-wipe-insert", t)
+	}
+	{
 		s := base() // the whole team taken to zero by one enemy action, everybody held by a revive: nobody is announced, all are back after the queue
 		s.start = 5
 		s.progs = append(s.progs, "Mu1.0+Mu2.0")
@@ -425,9 +455,9 @@ func simGen(r *rand.Rand, tier string, n int) []*wire.Case {
 			case k == 14:
 				return fmt.Sprintf("N%s.%d", sel(), pick(r, 30, 60, 120, -50))
 			case k == 15 || k == 16:
-				return fmt.Sprintf("M%s.%d", sel(), r.Intn(7))
+				return fmt.Sprintf("M%s.%d", sel(), r.Intn(8))
 			case k == 17:
-				return fmt.Sprintf("R%s.%d", sel(), r.Intn(7))
+				return fmt.Sprintf("R%s.%d", sel(), r.Intn(8))
 			case k == 18:
 				return fmt.Sprintf("S.%d", pick(r, 1, 2, -1, -3))
 			case k == 19 && r.Intn(2) == 0:
@@ -436,7 +466,7 @@ func simGen(r *rand.Rand, tier string, n int) []*wire.Case {
 			if canAttack {
 				return fmt.Sprintf("Ap.%d.1.%d", pick(r, 1, 2), dmg())
 			}
-			return fmt.Sprintf("M%s.%d", sel(), r.Intn(7))
+			return fmt.Sprintf("M%s.%d", sel(), r.Intn(8))
 		}
 		for p := 0; p < nprogs; p++ {
 			var cs []string
@@ -511,7 +541,7 @@ func simGen(r *rand.Rand, tier string, n int) []*wire.Case {
 			var ms []string
 			for c := 1; c <= nc; c++ {
 				if r.Intn(4) != 0 {
-					ms = append(ms, fmt.Sprintf("Mu%d.0", c))
+					ms = append(ms, fmt.Sprintf("Mu%d.%d", c, pick(r, 0, 0, 7)))
 				}
 			}
 			if len(ms) > 0 {
